@@ -6,18 +6,47 @@ import os
 import re
 from collections import defaultdict, deque
 
-_GEN = re.compile(r"::<[^<>]*(?:<[^<>]*(?:<[^<>]*>[^<>]*)*>[^<>]*)*>")
+def _strip_generics(s):
+    out = []
+    i = 0
+    n = len(s)
+    while i < n:
+        if s.startswith("::<", i):
+            # find the matching '>'
+            depth = 0
+            j = i + 2
+            while j < n:
+                c = s[j]
+                if c == "<":
+                    depth += 1
+                elif c == ">" and s[j - 1] != "-":
+                    depth -= 1
+                    if depth == 0:
+                        break
+                j += 1
+            inner = s[i + 3:j]
+            if " as " in inner or inner.startswith("impl "):
+                # qualified path `<T as Trait>` / `<impl ..>`: keep, but normalise its inside
+                out.append("::<" + _strip_generics(inner) + ">")
+            i = j + 1
+            continue
+        out.append(s[i])
+        i += 1
+    return "".join(out)
+
+
+_NORM_MEMO = {}
 
 
 def norm_name(s):
-    """strip generic argument lists `::<..>` (up to 3 nesting levels) and lifetimes"""
+    """strip generic argument lists `::<..>` (keeping `<T as Trait>` qualifiers)"""
     if not s:
         return s
-    prev = None
-    while prev != s:
-        prev = s
-        s = _GEN.sub("", s)
-    return s
+    r = _NORM_MEMO.get(s)
+    if r is None:
+        r = _strip_generics(s)
+        _NORM_MEMO[s] = r
+    return r
 
 
 class Body:
@@ -695,7 +724,7 @@ def _show(e):
 def short(path):
     # keep the last two path segments
     p = path
-    if p.startswith("<") and " as " in p:
+    if "<" in p:
         return p
     segs = p.split("::")
     return "::".join(segs[-2:])
